@@ -587,13 +587,15 @@ def run_ivbounded(prop, tier, seed, known, lock):
         if q == -INF:
             return fninf
         q = Fraction(q)
-        return L.mpf_div(L.from_int(q.numerator), L.from_int(q.denominator), 200, 'n')   # exact for dyadics
+        r = L.mpf_div(L.from_int(q.numerator), L.from_int(q.denominator), 200, 'n')   # exact for dyadics
+        assert val(r) == q, 'endpoint %s is not exactly representable: the harness would test a non-member' % q
+        return r
 
     pts = [-INF, Fraction(-7, 2), Fraction(-1), Fraction(-1, 2), Fraction(-3, 1 << 40), Fraction(0),
            Fraction(1, 1 << 30), Fraction(3, 4), Fraction(1), Fraction(5, 2), Fraction((1 << 70) + 1, 1 << 60),
            Fraction(10 ** 10), INF]
     if tier != 'quick':
-        pts += [Fraction(-(1 << 80) - 1, 1 << 81), Fraction(7, 1 << 3), Fraction(123456789, 1000 * 1024)]
+        pts += [Fraction(-(1 << 80) - 1, 1 << 81), Fraction(7, 1 << 3), Fraction(123456789, 1 << 20)]
         pts = sorted(set(pts), key=lambda z: (z if z not in (INF, -INF) else (10 ** 30 if z == INF else -10 ** 30)))
     ivs = []
     for i, a in enumerate(pts):
